@@ -29,6 +29,17 @@ COPYING = {"add", "sub", "mul", "sorted", "sublist", "zip", "reverse",
            "split", "split2", "lines", "words", "first_n", "last_n", "rest",
            "grep", "permutations", "substitute"}
 
+# functions documented to return one of their arguments as it is (a
+# selection, not a produced value); every other function that returns a
+# string must return one of its own: strings can be changed by element
+# assignment, so a result that is the argument object itself is not
+# independent of its input
+SELECTORS = {"identity", "if_null", "if_empty", "if_null_or_empty",
+             "non_empty", "non_zero", "min", "max", "choice", "median",
+             "median_high", "median_low", "gcd", "eval", "div0", "map_get",
+             "map_get_pattern", "reduce", "first", "last", "list_min_key",
+             "list_max_key"}
+
 # functions whose result is made of pieces cut from the argument: no piece
 # may be the argument container itself
 NESTED_FRESH = {"chunks", "grouped", "permutations", "pairs", "zip",
@@ -145,6 +156,20 @@ def explore_calls(chunk):
                              "args": list(t), "identity": True},
                             "a fresh container", "argument %d itself" % k,
                             size=len(t) * 100 + sum(len(x) for x in t))
+            if o[0] == "value" and bname not in SELECTORS and \
+                    bname not in MUTATORS and \
+                    isinstance(o[1], core.ckl.values.ValueString):
+                for k, a in enumerate(args):
+                    if o[1] is a:
+                        agg.violation(
+                            {"what": "string-result-is-argument",
+                             "callee": fname},
+                            {"kind": "call", "callee": fname,
+                             "args": list(t), "identity": True},
+                            "a string of its own", "argument %d itself "
+                            "(element assignment to the result changes the "
+                            "argument)" % k,
+                            size=len(t) * 100 + sum(len(x) for x in t))
             if bname in NESTED_FRESH and o[0] == "value" and \
                     is_container(o[1]):
                 for k, a in enumerate(args):
@@ -249,6 +274,9 @@ LITERALS = [
     ("<*m = 'ab', n = [1]*>", ["t->m[0] = 'X'", "append(t->n, 2)"]),
     ("[<<1>>, <<<1 => [2]>>>]", ["append(t[0], 2)", "append(t[1][1], 3)"]),
     ("'a' + 'b'", ["t[0] = 'X'"]),
+    # a string of one character still has a position that can be replaced
+    ("'a'", ["t[0] = 'xy'", "t[-1] = 'X'"]),
+    ("['a']", ["t[0][0] = 'xy'"]),
     # the empty literals (candidates for being folded into one constant)
     ("[]", ["append(t, 9)", "append_all(t, [7])", "insert_at(t, 0, 9)"]),
     ("<<>>", ["append(t, 9)"]),
